@@ -116,11 +116,13 @@ type shardStats struct {
 	Exhaustive   bool              `json:"exhaustive"`
 	Notes        []string          `json:"notes"`
 	StoppedEarly bool              `json:"stopped_early"`
+	BulkDistinct int64             `json:"bulk_distinct"`
 }
 
 func mergeStats(work string, shards int) mergedStats {
 	m := mergedStats{Labels: map[string]int64{}, Excluded: map[string]int64{}, Counters: map[string]int64{}}
 	hashes := map[uint64]struct{}{}
+	bulk := int64(0)
 	for s := 0; s < shards; s++ {
 		prefix := filepath.Join(work, fmt.Sprintf("s%d", s))
 		b, err := os.ReadFile(prefix + ".stats.json")
@@ -132,6 +134,7 @@ func mergeStats(work string, shards int) mergedStats {
 			continue
 		}
 		m.Evaluations += st.Evaluations
+		bulk += st.BulkDistinct
 		m.NonTrivial += st.NonTrivial
 		for k, v := range st.Labels {
 			m.Labels[k] += v
@@ -161,7 +164,7 @@ func mergeStats(work string, shards int) mergedStats {
 			}
 		}
 	}
-	m.Distinct = len(hashes)
+	m.Distinct = len(hashes) + int(bulk)
 	return m
 }
 
